@@ -373,3 +373,16 @@ def _run_case(case, R):
             check_verify(hv, "hash-on-load")
             for f in trees.FORMATS:
                 check_absent(hand.dumps(f), "dumps(%s) after hash-on-load" % f)
+            # the same hand-written document loaded again into the configuration that now holds a digest (and into one
+            # that holds a digest from an assignment): hashed again, with a fresh salt each time
+            hand.loads(doc, fmt)
+            hv2 = get(hand)
+            if check_shape(hv2, pb, "hash-on-reload"):
+                check_verify(hv2, "hash-on-reload")
+                R.check(hv2.salt != hv.salt, "fresh-salt", "reload-handwritten", "loading the same hand-written plaintext twice into one configuration gives the same salt")
+            held = get(cfg)
+            cfg.loads(doc, fmt)
+            hv3 = get(cfg)
+            if isinstance(held, cc.DigestValue) and check_shape(hv3, pb, "hash-on-load-over-held"):
+                check_verify(hv3, "hash-on-load-over-held")
+                R.check(hv3.salt != held.salt, "fresh-salt", "load-over-held", "a hand-written plaintext loaded over a held digest is hashed with the held digest's salt")
